@@ -5,6 +5,8 @@ import (
 	"context"
 	"encoding/json"
 	"fmt"
+	bdspan "github.com/bytedance/gopkg/lang/span"
+	"github.com/cloudwego/gopkg/container/strmap"
 	"hash/fnv"
 	"strings"
 
@@ -18,6 +20,7 @@ import (
 
 	"verif/mc"
 	"verif/ref"
+	"verif/vdump"
 )
 
 // C14 — concurrent use: separate instances are isolated (controlled-scheduler part).
@@ -390,7 +393,7 @@ func (r *c14Run) setup(s *mc.Sched) []func() {
 	vsync.Reset()
 	useSpan := contains(r.k.Scenario, "B") || r.span
 	if useSpan {
-		thrift.VerifSpanReset() // 10 MiB of fresh spans: only where the span allocator is in play
+		bdspan.VerifResetAll() // 10 MiB of fresh spans: only where the span allocator is in play
 	}
 	thrift.SetSpanCache(useSpan)
 	r.logs = nil
@@ -399,13 +402,13 @@ func (r *c14Run) setup(s *mc.Sched) []func() {
 	mcache.VerifHook = func(op string, class int) { s.Point(op) }
 	vsync.Hook = func(op string) { s.Point(op) }
 	vatomic.Hook = func(op string) { s.Point(op) }
-	vsync.OnPut = func(x interface{}) { r.snaps[x] = thrift.VerifArmAndSnapshot(x) }
+	vsync.OnPut = func(x interface{}) { r.snaps[x] = armAndSnapshot(x) }
 	vsync.OnGet = func(x interface{}, fresh bool) {
 		if fresh {
 			return
 		}
 		if want, ok := r.snaps[x]; ok {
-			if got := thrift.VerifSnapshot(x); got != want {
+			if got := pooledSnapshot(x); got != want {
 				r.auditBuf = append(r.auditBuf, fmt.Sprintf("pooled object written after it was returned to its pool: at Put %s, at next Get %s", want, got))
 			}
 			delete(r.snaps, x)
@@ -472,7 +475,7 @@ func c14Check(c *mc.Ctx, r *c14Run, res mc.SchedResult) {
 	// collect the audits of THIS execution first: computing a solo log (cache miss) runs another execution and resets the shims
 	vsync.Each(func(x interface{}) {
 		if want, ok := r.snaps[x]; ok {
-			if got := thrift.VerifSnapshot(x); got != want {
+			if got := pooledSnapshot(x); got != want {
 				r.auditBuf = append(r.auditBuf, fmt.Sprintf("pooled object written after it was returned to its pool: at Put %s, at end %s", want, got))
 			}
 		}
@@ -523,7 +526,93 @@ func nonzero(ch []int) string {
 	return "[" + strings.TrimSpace(b.String()) + "] (point:option, others 0)"
 }
 
+// ---- shared maps: every query is a pure read ----
+
+type c14MapCase struct {
+	Kind string `json:"kind"` // int | str2str
+	N    int    `json:"keys"`
+}
+
+// c14Map: every exported query of a loaded map (Get hit/miss, Len, Item, String, %v) leaves every private field of the
+// map bit-identical.  Reads that do not write commute, so all interleavings of concurrent queries are equivalent to
+// the sequential order explored here.  If the map type holds a synchronisation primitive (package sync or
+// sync/atomic), a change may be legitimate and nothing is concluded here (the -race pass still runs).
+func c14Map(c *mc.Ctx, k c14MapCase) {
+	c.Eval(1)
+	kk := make([]string, k.N)
+	vi := make([]int, k.N)
+	vs := make([]string, k.N)
+	for i := range kk {
+		kk[i], vi[i], vs[i] = fmt.Sprintf("key-%d-%s", i, strings.Repeat("x", i%7)), i, fmt.Sprintf("val-%d", i)
+	}
+	var m interface{}
+	var queries func() string
+	switch k.Kind {
+	case "int":
+		sm := strmap.NewFromSlice(kk, vi)
+		m = sm
+		queries = func() string {
+			for i, key := range kk {
+				if v, ok := sm.Get(key); !ok || v != i {
+					return fmt.Sprintf("Get(%q) = %d,%v", key, v, ok)
+				}
+				sm.Get("absent-" + key)
+			}
+			sm.Get("")
+			for i := 0; i < sm.Len(); i++ {
+				sm.Item(i)
+			}
+			_ = sm.String()
+			_ = fmt.Sprint(sm)
+			_ = fmt.Sprintf("%v %+v %s", sm, sm, sm)
+			return ""
+		}
+	default:
+		sm := strmap.NewStr2StrFromSlice(kk, vs)
+		m = sm
+		queries = func() string {
+			for i, key := range kk {
+				if v, ok := sm.Get(key); !ok || v != vs[i] {
+					return fmt.Sprintf("Get(%q) = %q,%v", key, v, ok)
+				}
+				sm.Get("absent-" + key)
+			}
+			sm.Get("")
+			_ = sm.Len()
+			return ""
+		}
+	}
+	bad := func(class, format string, a ...interface{}) {
+		c.Violate("maps", "C14|shared-map|"+k.Kind+"|"+class, fmt.Sprintf("a loaded %s map of %d keys: ", k.Kind, k.N)+fmt.Sprintf(format, a...), k)
+	}
+	pi := mc.Try(func() {
+		for round := 0; round < 2; round++ {
+			d0 := vdump.Key(m, vdump.Opt{Content: true, SkipSync: true})
+			if w := queries(); w != "" {
+				bad("wrong-answer", "%s", w)
+				return
+			}
+			if d1 := vdump.Key(m, vdump.Opt{Content: true, SkipSync: true}); d1 != d0 && !vdump.HasSync(m) {
+				bad("query-writes", "a query (Get / Len / Item / String / %%v) modified the map's private state, and the map holds no synchronisation primitive: two goroutines querying it at the same time race (round %d)", round)
+				return
+			}
+		}
+	})
+	if pi != nil {
+		bad("panic", "panic: %s at %s", pi.Msg, pi.Frame)
+	}
+}
+
 func c14RunAll(c *mc.Ctx) {
+	if c.Shard == 0 {
+		for _, kind := range []string{"int", "str2str"} {
+			for _, n := range []int{0, 1, 2, 12, 200, 3000} {
+				c.Distinct("map", kind, n)
+				c14Map(c, c14MapCase{Kind: kind, N: n})
+			}
+		}
+		c.Done("shared maps: every exported query of loaded int / Str2Str maps of 0..3000 keys leaves the private state bit-identical (reads commute)")
+	}
 	bound := 2
 	if c.Thorough() {
 		bound = 3
@@ -581,11 +670,15 @@ func init() {
 		Assumptions: []string{
 			"sequentially consistent memory between scheduling points; unsynchronised accesses between points are invisible to the scheduler and are the business of the free-running -race complement (sampling, declared as such)",
 			"sync.Pool is modelled as LIFO with optional loss of all items at a Get; mcache as per-class LIFO",
-			"read-only concurrent Get on a loaded map: C07 shows Get leaves the private state bit-identical, so all interleavings of Gets commute; the -race pass exercises it on the real build",
+			"read-only concurrent queries on a loaded map: every exported query is shown to leave the private state bit-identical (when the type holds no synchronisation primitive), so all interleavings of queries commute; the -race pass exercises it on the real build",
 		},
 		Run:  c14RunAll,
 		Post: c14RacePass,
 		Replay: func(c *mc.Ctx, sub string, raw json.RawMessage) {
+			if sub == "maps" {
+				replayAs(raw, func(k c14MapCase) { c14Map(c, k) })
+				return
+			}
 			replayAs(raw, func(k c14Case) {
 				r := &c14Run{k: k}
 				res := mc.ReplaySchedule(k.Choices, r.setup)
